@@ -495,7 +495,7 @@ func (c *hybiServerHandshaker) ReadHandshake(buf *bufio.Reader, req *http.Reques
 	// HTTP version can be safely ignored.
 
 	if strings.ToLower(req.Header.Get("Upgrade")) != "websocket" ||
-		!strings.Contains(strings.ToLower(req.Header.Get("Connection")), "upgrade") {
+		!headerHasToken(req.Header, "Connection", "upgrade") {
 		return http.StatusBadRequest, ErrNotWebSocket
 	}
 
@@ -532,6 +532,19 @@ func (c *hybiServerHandshaker) ReadHandshake(buf *bufio.Reader, req *http.Reques
 		return http.StatusInternalServerError, err
 	}
 	return http.StatusSwitchingProtocols, nil
+}
+
+// headerHasToken reports whether the comma-separated list in the named
+// header field includes token (ASCII case-insensitive).
+func headerHasToken(h http.Header, name, token string) bool {
+	for _, v := range h.Values(name) {
+		for _, t := range strings.Split(v, ",") {
+			if strings.EqualFold(strings.TrimSpace(t), token) {
+				return true
+			}
+		}
+	}
+	return false
 }
 
 // Origin parses the Origin header in req.
